@@ -491,7 +491,7 @@ def suite_gen_hierarchy(rng, tier, shard, nshards):
     """exhaustive small rank vectors (all pairs of lists of length <= 2 (quick) / 3 (thorough) on {0,1,2} through
     _count_inversions, all aligned pairs + both transitive values through _compare_frame_rankings), random longer ones
     (gaps between levels, estimate longer / shorter), random matrices through _gauc (every window kind, shape
-    mismatch)"""
+    mismatch), _round / _hierarchy_bounds / _lca on lattice time stamps and the hierarchy stream"""
     kmax = 2 if tier == "quick" else 3
     lists = [list(t) for k in range(kmax + 1) for t in itertools.product(range(3), repeat=k)]
     cases = []
@@ -518,6 +518,25 @@ def suite_gen_hierarchy(rng, tier, shard, nshards):
     for k, c in enumerate(suite_gauc(rng, "quick", shard, nshards)):
         if c.op == "hierarchy._gauc" and (tier != "quick" or k < 60):
             yield _retarget(c, "_gauc")
+    # stage 2: _round (numbers on the 1/32 s lattice incl. exact multiples of the frame size), _hierarchy_bounds (also no
+    # levels / only empty levels -> ValueError), _lca on the hierarchy stream of suite `lca` (one-level offsets included)
+    for _ in range(40 if tier == "quick" else 400):
+        fs = rng.choice(FRAME_SIZES)
+        t = Fr(rng.randint(0, 512), 32) if rng.random() < 0.7 else fs * rng.randint(0, 40)
+        yield Case("gen.hierarchy", ["_round", t, fs], lambda t=t, fs=fs: H._round(float(t), float(fs)),
+                   tag="gen _round fs=%s" % fs, info={"fn": "_round", "t": t, "fs": fs})
+    for k in range(40 if tier == "quick" else 400):
+        hier = gen_hier(rng, gen_span(rng), rng.choice(FRAME_SIZES))
+        if k % 10 == 0:
+            hier = [[] for _ in hier][:k % 3]        # no boundaries at all: min([]) raises
+        elif k % 10 == 1:
+            off = Fr(rng.randint(1, 64), 32)
+            hier = [[[a + off, b + off] for a, b in lv] for lv in hier]
+        yield Case("gen.hierarchy", ["_hierarchy_bounds", hier],
+                   lambda hier=hier: tuple(float(x) for x in H._hierarchy_bounds(arrs(hier))),
+                   tag="gen _hierarchy_bounds levels=%d" % len(hier), info={"fn": "_hierarchy_bounds", "hier": hier})
+    for c in suite_lca(rng, tier, shard, nshards):
+        yield _retarget(c, "_lca")
 
 
 SUITES["gen_hierarchy"] = suite_gen_hierarchy
